@@ -58,18 +58,18 @@ def run(ctx):
                     not (bt <= {"list", "tuple", "dict"}):
                 continue          # a different class's field of that name
             all_sites.append(m)
-    r1_who_may_write(ctx, all_sites)
-    r1_escapes(ctx)
+    ctx.guard(r1_who_may_write, all_sites)
+    ctx.guard(r1_escapes)
     by_func = {}
     for m in all_sites:
         by_func.setdefault(m.func, []).append(m)
     for f, ms in by_func.items():
-        r2_pairing(ctx, f, ms)
-        r3_boxed(ctx, f, ms)
-        r4_order(ctx, f, ms)
-    r3_helpers(ctx)
-    r4_helpers(ctx)
-    r5_reject_before_write(ctx, by_func)
+        ctx.guard(r2_pairing, f, ms)
+        ctx.guard(r3_boxed, f, ms)
+        ctx.guard(r4_order, f, ms)
+    ctx.guard(r3_helpers)
+    ctx.guard(r4_helpers)
+    ctx.guard(r5_reject_before_write, by_func)
     ctx.assume("asserts are executed (python -O is not used): several guards "
                "are assert statements")
     ctx.assume("the callback given to updateCoords is injective on the "
@@ -414,18 +414,9 @@ def _sorted_pos(ctx, f, m, coord_text):
     Returns (verdict, idiom text)."""
     pos = m.args[0]
     base = text(m.base)
-    cands = []
-    if isinstance(pos, ast.Name):
-        facts, is_param = ctx.ty.facts_at(f, pos.id, pos)
-        for fa in facts:
-            if fa.kind == "expr" and not fa.path:
-                cands.append(fa.value)
-            else:
-                return False, "position has a non-expression definition"
-        if is_param:
-            cands.append("PARAM:" + pos.id)
-    else:
-        cands.append(pos)
+    cands = _leaf_defs(ctx, f, pos)
+    if cands is None:
+        return False, "position has a non-expression definition"
     if not cands:
         return False, "position has no definition"
     for c in cands:
@@ -440,6 +431,30 @@ def _sorted_pos(ctx, f, m, coord_text):
         return False, "position `%s` is not %s._coord2pos(%s)" % (
             text(c), base, coord_text)
     return True, "position is _coord2pos of the inserted coordinate"
+
+
+def _leaf_defs(ctx, f, expr, depth=0):
+    """Defining expressions of `expr`, following plain name-to-name copies;
+    'PARAM:<name>' for a parameter value.  None if not expressible."""
+    if not isinstance(expr, ast.Name):
+        return [expr]
+    if depth > 5:
+        return None
+    facts, is_param = ctx.ty.facts_at(f, expr.id, expr)
+    out = []
+    for fa in facts:
+        if fa.kind != "expr" or fa.path:
+            return None
+        if isinstance(fa.stmt, ast.AugAssign):
+            out.append(fa.value)
+            continue
+        sub = _leaf_defs(ctx, f, fa.value, depth + 1)
+        if sub is None:
+            return None
+        out.extend(sub)
+    if is_param:
+        out.append("PARAM:" + expr.id)
+    return out
 
 
 def _param_pos_sorted(ctx, f, pname, coord_text):
@@ -568,8 +583,13 @@ def _r4_rebind(ctx, f, m):
                 if "<=" in v or "<" in v:
                     if n.targets[0].id in ttext:
                         flag = n
-        if test is not None and "_ordered" in ttext and flag is not None and \
-                ("not" + flag.targets[0].id) in ttext:
+        conj = set()
+        if test is not None:
+            conj = {(text(t).replace(" ", ""), pol)
+                    for t, pol in pat.conjuncts(test)}
+        base_txt = text(m.stmt.targets[0].elts[0])[:-7]
+        if flag is not None and conj == {(base_txt + "._ordered", True),
+                                         (flag.targets[0].id, False)}:
             ctx.ok("C01.R4", f, m.node, "(d) joint re-sort of the zipped pair "
                    "under `%s`" % text(test))
         else:
